@@ -354,6 +354,19 @@ func init() {
 						n = 1 + w.T.Choose(3, "victim-nops")
 					}
 					for i := 0; i < n; i++ {
+						if w.T.Bool(1, 6, "announces-known-entity-again") {
+							// the peer announces an entity again, unchanged (the node rebuilds its view of the
+							// entity's features): the registry is about addresses, nothing changes for it
+							e := p.Ents[1+w.T.Choose(len(p.Ents)-1, "entity-again")]
+							added := model.NetworkManagementStateChangeTypeAdded
+							cmd := model.CmdType{
+								Function:                            util.Ptr(model.FunctionTypeNodeManagementDetailedDiscoveryData),
+								Filter:                              []model.FilterType{*model.NewFilterTypePartial()},
+								NodeManagementDetailedDiscoveryData: p.DiscoveryData([]*PEnt{e}, &added, true),
+							}
+							p.Await(p.SendCmd(p.NM().Address(), p.LocalNM(), model.CmdClassifierTypeNotify, nil, cmd, "entity-announced-again"))
+							w.Probe("peer-announced-known-entity-again")
+						}
 						var ri *regIssued
 						if w.T.Bool(1, 6, "listing") {
 							ri = d.rs.issueListing(p)
